@@ -1418,7 +1418,7 @@ LEVEL_NOTE = ("Trusted: Coq kernel, extraction, this harness (generators, render
               "are compared with the harness classifiers on every case), so any other deviation still alarms. Findings C13-F1, F2, F3, F4, F7, F9, "
               "F10 are repaired in the source; their witnesses are must-pass corpus cases (corpus/C13).")
 MODEL = ("Model.C13_run", "run_C13")
-COQ_TARGETS = ["Proofs/C13_strings.vo", "Proofs/C13_google.vo", "Proofs/C13_sphinx.vo", "Proofs/C13_numpy.vo", "Proofs/C13_sphinx_full.vo"]
+COQ_TARGETS = ["Proofs/C13_strings.vo", "Proofs/C13_google.vo", "Proofs/C13_sphinx.vo", "Proofs/C13_numpy.vo", "Proofs/C13_sphinx_full.vo", "Proofs/C13_history.vo"]
 MODEL_TARGETS = ["Model/C13_run.vo"]        # not a dependency of the proofs: rebuilt when Gen/C13_tables.v changes
 RULE = ("seeded generation of written structures: parent (function with 0-4 annotated/defaulted/starred parameters and name/tuple return, generator "
         "or iterator, class/module with attributes, __init__, property, none) x 0-6 sections drawn from the kinds fitting the parent (10% any kind) in any "
@@ -2028,111 +2028,208 @@ def history_options(rng, style: str) -> dict:
 
 def gen_history(ctx, g: Gen) -> dict:
     """A history: docstrings created the way the loader creates them (every Docstring of a load is handed the SAME
-    `docstring_options` dict) and some created on their own, then a sequence of parse calls with per-call options."""
+    `docstring_options` dict) and some created on their own; then a sequence of parse / .parsed calls with per-call options,
+    of writes into a configured dictionary and of assignments of a new dictionary to one docstring."""
     rng = ctx.rng
     style = rng.choice(["google", "google", "numpy", "sphinx"])
+
+    def one_doc():
+        if style == "sphinx":
+            doc = gen_sphinx_doc(g)
+            return doc, "\n".join(render_sphinx(doc))
+        doc = gen_doc(g, style, {o: v for o, v in random_opts(rng, style).items() if o in GOOGLE_OPTS[:6]})
+        return doc, "\n".join(render_google(doc) if style == "google" else render_numpy(doc))
     loads = []
     for _ in range(rng.randint(1, 2)):
         configured = history_options(rng, style) if rng.random() < 0.75 else None
         modules = []
         for _ in range(rng.randint(1, 3)):
             for _try in range(20):
-                if style == "sphinx":
-                    doc = gen_sphinx_doc(g)
-                    text = "\n".join(render_sphinx(doc))
-                else:
-                    doc = gen_doc(g, style, {o: v for o, v in random_opts(rng, style).items() if o in GOOGLE_OPTS[:6]})
-                    text = "\n".join(render_google(doc) if style == "google" else render_numpy(doc))
+                doc, text = one_doc()
                 sp = docstring_source(doc["parent"], text)
                 if sp is not None:
+                    modules.append({"source": sp[0], "path": list(sp[1]), "text": text, "parent": doc["parent"]})
                     break
-            else:
-                continue
-            modules.append({"source": sp[0], "path": list(sp[1]), "text": text})
         loads.append({"configured": configured, "modules": modules})
     alone = []
     for _ in range(rng.randint(0, 2)):
-        doc = gen_doc(g, style, {}) if style != "sphinx" else gen_sphinx_doc(g)
-        text = "\n".join(render_sphinx(doc) if style == "sphinx" else render_google(doc) if style == "google" else render_numpy(doc))
+        doc, text = one_doc()
         alone.append({"text": text, "configured": history_options(rng, style) if rng.random() < 0.5 else None})
     n_docs = sum(len(l["modules"]) for l in loads) + len(alone)
     steps = []
-    for _ in range(rng.randint(3, 9)):
+    for _ in range(rng.randint(3, 10)):
         r = rng.random()
-        steps.append({"doc": rng.randrange(max(1, n_docs)),
-                      "options": history_options(rng, style) if r < 0.55 else {},
-                      "explicit_parser": rng.random() < 0.5,
-                      "parsed_property": r > 0.9})
+        st = {"doc": rng.randrange(max(1, n_docs))}
+        if r < 0.12:
+            st.update(op="mutate", ref=rng.randrange(8), options=history_options(rng, style))      # cfg[key] = value
+        elif r < 0.2:
+            st.update(op="setopts", options=history_options(rng, style) if rng.random() < 0.8 else {})
+        elif r < 0.3:
+            st.update(op="parsed")
+        else:
+            st.update(op="parse", options=history_options(rng, style) if rng.random() < 0.6 else {}, explicit_parser=rng.random() < 0.5)
+        steps.append(st)
     return {"style": style, "loads": loads, "alone": alone, "steps": steps}
 
 
-def run_history(h: dict) -> list:
+def _odict_sexp(d: dict | None):
+    return [[k, bool(v)] for k, v in (d or {}).items()]
+
+
+def run_history(h: dict, ctx=None) -> tuple[list, list]:
     """Replay a history on the implementation.  Every call must give what a FRESH Docstring (same text, parent, parser and a
-    private copy of the configured options) gives for the same call, and no configured dict may change.  -> mismatches."""
+    private copy of the options configured AT THAT MOMENT: the explicit writes of the history count, nothing else) gives
+    for the same call; `.parsed` is what it was at its first read; no configured dict may differ from the mirror that only
+    the explicit writes touch.  With ctx: the same history in the extracted Coq model (hexec) must give the same
+    observations, dictionaries and references.  -> (mismatches against the fresh docstring, mismatches against the model)."""
     import copy
     import griffe
     style = h["style"]
-    docs = []                       # (docstring object, raw text, snapshot of the configured options, load index)
-    shared = []
+    docs, heap, refs, parents = [], [], [], []      # heap: the ACTUAL dict objects; refs[doc] = index of its dict
     for li, load in enumerate(h["loads"]):
         cfg = copy.deepcopy(load["configured"])          # ONE dict object for the whole load, as in GriffeLoader
-        shared.append((cfg, copy.deepcopy(cfg)))
+        shared_ref = None
+        if cfg:
+            heap.append(cfg)
+            shared_ref = len(heap) - 1
         for mi, m in enumerate(load["modules"]):
             mod = griffe.visit(f"m{li}_{mi}", filepath=None, code=m["source"], docstring_parser=griffe.Parser(style), docstring_options=cfg)
             obj = mod
             for nm in m["path"]:
                 obj = obj.members[nm]
             if obj.docstring is None:
-                return [{"harness": "no docstring on generated object", "source": m["source"]}]
-            docs.append((obj.docstring, m["text"], copy.deepcopy(cfg), li))
+                return [{"harness": "no docstring on generated object", "source": m["source"]}], None
+            d = obj.docstring
+            if shared_ref is None:
+                heap.append(d.parser_options)
+                refs.append(len(heap) - 1)
+            else:
+                if d.parser_options is not cfg:
+                    return [{"harness": "the visitor did not hand the shared options dict to the docstring"}], None
+                refs.append(shared_ref)
+            docs.append((d, m["text"]))
+            parents.append(m["parent"])
     for a in h["alone"]:
-        cfg = copy.deepcopy(a["configured"])
-        docs.append((griffe.Docstring(a["text"], lineno=1, parser=griffe.Parser(style), parser_options=cfg), a["text"], copy.deepcopy(cfg), None))
-    bad = []
+        d = griffe.Docstring(a["text"], lineno=1, parser=griffe.Parser(style), parser_options=copy.deepcopy(a["configured"]))
+        heap.append(d.parser_options)
+        refs.append(len(heap) - 1)
+        docs.append((d, a["text"]))
+        parents.append({"kind": "none"})
     if not docs:
-        return bad
+        return [], None
+    mirror = copy.deepcopy(heap)                     # what the dictionaries must be: only explicit writes change them
+    heap0, refs0 = copy.deepcopy(heap), list(refs)
+    bad, observed, mops, cached = [], [], [], {}
     for si, st in enumerate(h["steps"]):
-        d, text, cfg0, li = docs[st["doc"] % len(docs)]
+        di = st["doc"] % len(docs)
+        d, text = docs[di]
+        op = st["op"]
+        if op == "mutate":
+            r = st["ref"] % len(heap)
+            for k, v in st["options"].items():
+                heap[r][k] = v
+                mirror[r][k] = v
+                mops.append(["mutate", r, k, bool(v)])
+                observed.append(None)
+            continue
+        if op == "setopts":
+            new = dict(st["options"])
+            d.parser_options = new
+            heap.append(new)
+            mirror.append(copy.deepcopy(new))
+            refs[di] = len(heap) - 1
+            mops.append(["setopts", di, _odict_sexp(new)])
+            observed.append(None)
+            continue
         fresh = griffe.Docstring(text, lineno=d.lineno, endlineno=d.endlineno, parent=d.parent, parser=d.parser,
-                                 parser_options=copy.deepcopy(cfg0))
+                                 parser_options=copy.deepcopy(mirror[refs[di]]))
         try:
-            if st["parsed_property"]:
-                got, want = canon_sections(d.parsed), canon_sections(fresh.parse())
+            if op == "parsed":
+                got = canon_sections(d.parsed)
+                want = cached.setdefault(di, canon_sections(fresh.parse()))
+                mops.append(["parsed", di])
             elif st["explicit_parser"]:
                 got, want = canon_sections(d.parse(style, **st["options"])), canon_sections(fresh.parse(style, **st["options"]))
+                mops.append(["parse", di, [style], _odict_sexp(st["options"])])
             else:
                 got, want = canon_sections(d.parse(**st["options"])), canon_sections(fresh.parse(**st["options"]))
+                mops.append(["parse", di, [], _odict_sexp(st["options"])])
         except Exception as e:  # noqa: BLE001
             bad.append({"step": si, "exception": f"{type(e).__name__}: {e}"[:200]})
+            observed.append(None)
             continue
+        observed.append((got, d.parent))
         if got != want:
             first = next((i for i, (a, b) in enumerate(zip(got, want)) if a != b), min(len(got), len(want)))
             bad.append({"step": si, "text": text, "after_earlier_calls": got[first:first + 1], "fresh_docstring": want[first:first + 1]})
-    for li, (cfg, snap) in enumerate(shared):
-        if cfg != snap:
-            bad.append({"configured_options_of_load": li, "were": snap, "are_now": cfg})
-    for d, text, cfg0, li in docs:
-        if li is None and d.parser_options != (cfg0 or {}):
-            bad.append({"configured_options_of_docstring": text[:60], "were": cfg0, "are_now": d.parser_options})
-    return bad
+    for r, (now, must) in enumerate(zip(heap, mirror)):
+        if now != must:
+            bad.append({"configured_options_dict": r, "must_be": must, "are_now": now})
+    for di, (d, text) in enumerate(docs):
+        if d.parser_options is not heap[refs[di]]:
+            bad.append({"docstring": di, "parser_options_object_replaced": True})
+    every = [x for x in heap0 + [s_.get("options") or {} for s_ in h["steps"]]]
+    if ctx is not None and all(model_ok(t) for _, t in docs) and not (style == "google" and any(x.get("ignore_init_summary") for x in every)):
+        mdocs = [[ctx_sexp(p), p["kind"] == "init", p["kind"] in ("func", "gen", "init", "prop"), [style], r, doc_lines(t)]
+                 for (d, t), p, r in zip(docs, parents, refs0)]
+        query = ["hist", [_odict_sexp(x) for x in heap0], mdocs, mops]
+        heap_now, refs_now = copy.deepcopy(heap), list(refs)
+
+        def compare(mo):
+            m_obs, m_heap, m_refs = mo
+            ctx.count("history_model_cases")
+            ctx.count("history_model_observations", len([x for x in observed if x is not None]))
+            return _history_compare(observed, mops, m_obs, m_heap, m_refs, heap_now, refs_now)
+        return bad, (query, compare)
+    return bad, None
 
 
-def explore_histories(ctx, n: int):
+def _history_compare(observed, mops, m_obs, m_heap, m_refs, heap, refs) -> list:
+    ties = []
+    if True:
+        for si, (ob, mob) in enumerate(zip(observed, m_obs)):
+            if ob is None:
+                if mob != ["none"]:
+                    ties.append({"op": mops[si], "model": mob, "impl": "no result"})
+                continue
+            got, pobj = ob
+            impl = ["res", ["ok", _norm_ann_secs(model_shape(got), pobj)]]
+            mob2 = ["res", ["ok", _norm_ann_secs(mob[1][1], pobj)]] if mob[0] == "res" and mob[1][0] == "ok" else mob
+            if mob2 != impl:
+                ties.append({"op": mops[si], "model": mob2, "impl": impl})
+        canon = lambda dct: {(k if k in ("returns_multiple_items", "returns_named_value", "receives_multiple_items", "receives_named_value",  # noqa: E731
+                                         "trim_doctest_flags", "ignore_init_summary") else "other"): bool(v) for k, v in dct.items()}
+        if [canon(x) for x in heap] != [{k: bool(v) for k, v in x} for x in m_heap] or refs != m_refs:
+            ties.append({"heap_impl": [canon(x) for x in heap], "heap_model": m_heap, "refs_impl": refs, "refs_model": m_refs})
+    return ties
+
+
+def explore_histories(ctx, n: int, with_model: bool = True):
     g = Gen(ctx.rng)
+    jobs = []
     for _ in range(n):
         h = gen_history(ctx, g)
-        bad = run_history(h)
+        bad, job = run_history(h, ctx if with_model else None)
         ctx.count("history_cases")
         ctx.observe("history_style", h["style"])
         ctx.observe("history_steps", len(h["steps"]))
         ctx.observe("history_shared_configured", sum(1 for l in h["loads"] if l["configured"]))
-        ctx.observe("history_calls_with_options", sum(1 for s_ in h["steps"] if s_["options"]))
-        ctx.case({"history": [(s_["doc"], sorted(s_["options"].items())) for s_ in h["steps"]], "style": h["style"],
+        for s_ in h["steps"]:
+            ctx.observe("history_op", s_["op"] + ("+options" if s_["op"] == "parse" and s_["options"] else ""))
+        case = {"style": h["style"], "options": {}, "parent": {"kind": "none"}, "text": "", "history": h}
+        ctx.case({"history": [(s_["doc"], s_["op"], sorted((s_.get("options") or {}).items())) for s_ in h["steps"]], "style": h["style"],
                   "texts": [m["text"] for l in h["loads"] for m in l["modules"]]}, True)
         if bad:
-            text = next((b["text"] for b in bad if "text" in b), "")
-            ctx.property_failure({"style": h["style"], "options": {}, "parent": {"kind": "none"}, "text": text, "history": h},
-                                 {"history_dependence": bad[:4]})
+            case["text"] = next((b["text"] for b in bad if "text" in b), "")
+            ctx.property_failure(case, {"history_dependence": bad[:4]})
+        if job is not None:
+            jobs.append((job, case))
+    # (C) the same histories in the extracted model (one batch)
+    outs = ctx.model([q for (q, _), _ in jobs])
+    for ((q, compare), case), mo in zip(jobs, outs):
+        ties = compare(mo)
+        if ties:
+            ctx.tie_failure("correspondence", "hexec(model) vs the same history on Docstring objects", ties[:3], case)
 
 
 def explore(ctx):
@@ -2170,7 +2267,7 @@ def search(ctx):
     explore_google(ctx, 1000, with_model=False, exotic=0.12)
     explore_numpy(ctx, 1000, exotic=0.12, with_model=False)
     explore_sphinx(ctx, 1000, with_model=False, exotic=0.12)
-    explore_histories(ctx, 600)
+    explore_histories(ctx, 600, with_model=False)
 
 
 def replay(ctx, data):
@@ -2179,7 +2276,7 @@ def replay(ctx, data):
     text = case.get("text")
     if case.get("history"):
         print("history:", json.dumps(case["history"], indent=1)[:6000])
-        print("history dependence now:", json.dumps(run_history(case["history"]), indent=1)[:4000])
+        print("history dependence now:", json.dumps(run_history(case["history"])[0], indent=1)[:4000])
         return 0
     if text is None:
         print("replay names no input:", data.get("no_longer_checks"))
